@@ -85,6 +85,70 @@ def sites(cls: ast.ClassDef) -> list[tuple[str, str, str, ast.AST, str]]:
     return out
 
 
+IMMUTABLE_RET = re.compile(r"^(bytes|str|tuple\[|frozenset\[|tuple$|frozenset$)")
+MUTABLE_CTORS = {"bytearray", "list", "set", "dict", "deque", "defaultdict", "OrderedDict"}
+
+
+def _strip_cast(e: ast.AST) -> ast.AST:
+    while isinstance(e, ast.Call) and unparse(e.func) in ("cast", "typing.cast") and len(e.args) == 2:
+        e = e.args[1]
+    return e
+
+
+def function_sites(fn: ast.AST, module_tree: ast.AST) -> list[tuple[str, ast.AST, str]]:
+    """(kind, node, detail) for one function: a mutable buffer returned under an immutable return annotation; a parameter
+    handed back as it is on one path and copied on another while a caller in the module updates the result in place."""
+    out = []
+    ret_ann = unparse(fn.returns).strip("'\"") if getattr(fn, "returns", None) is not None else ""
+    defs: dict[str, list[ast.AST]] = {}
+    for n in ast.walk(fn):
+        if isinstance(n, ast.Assign) and len(n.targets) == 1 and isinstance(n.targets[0], ast.Name):
+            defs.setdefault(n.targets[0].id, []).append(n.value)
+        elif isinstance(n, ast.AnnAssign) and isinstance(n.target, ast.Name) and n.value is not None:
+            defs.setdefault(n.target.id, []).append(n.value)
+    a = fn.args
+    params = {x.arg for x in a.posonlyargs + a.args + a.kwonlyargs}
+    rets = [n for n in ast.walk(fn) if isinstance(n, ast.Return) and n.value is not None]
+    # nested function returns belong to the nested function
+    nested = [g for g in ast.walk(fn) if isinstance(g, (ast.FunctionDef, ast.AsyncFunctionDef, ast.Lambda)) and g is not fn]
+    rets = [r_ for r_ in rets if not any(any(x is r_ for x in ast.walk(g)) for g in nested)]
+    if IMMUTABLE_RET.match(ret_ann):
+        for r_ in rets:
+            v = _strip_cast(r_.value)
+            if isinstance(v, ast.Name) and v.id not in params and defs.get(v.id) and all(isinstance(d, ast.Call) and unparse(d.func).split("[")[0] in MUTABLE_CTORS for d in defs[v.id]):
+                out.append(("mutable-returned-as-immutable", r_, f"{v.id} = {unparse(defs[v.id][0])[:40]}; -> {ret_ann[:30]}"))
+    bare = [(r_, _strip_cast(r_.value).id) for r_ in rets if isinstance(_strip_cast(r_.value), ast.Name) and _strip_cast(r_.value).id in params and _strip_cast(r_.value).id not in defs and _strip_cast(r_.value).id not in ("self", "cls")]
+    for r_, p in bare:
+        copies = [o for o in rets if o is not r_ and (_is_copy_of(_strip_cast(o.value), p) or (isinstance(_strip_cast(o.value), ast.Name) and any(_is_copy_of(d, p) for d in defs.get(_strip_cast(o.value).id, []))))]
+        if not copies:
+            continue
+        # a caller in the module that updates the result in place
+        fname = fn.name
+        for g in ast.walk(module_tree):
+            if not isinstance(g, (ast.FunctionDef, ast.AsyncFunctionDef)):
+                continue
+            holders = {unparse(n.targets[0]) for n in ast.walk(g) if isinstance(n, ast.Assign) and len(n.targets) == 1 and isinstance(n.value, ast.Call) and unparse(n.value.func).split(".")[-1] == fname}
+            if not holders:
+                continue
+            # one level of local aliases: `container = a if c else b`
+            for n in ast.walk(g):
+                if isinstance(n, ast.Assign) and len(n.targets) == 1 and isinstance(n.targets[0], ast.Name) and any(isinstance(b, ast.Name) and b.id in holders for b in _branches(n.value)):
+                    holders = holders | {n.targets[0].id}
+            for n in ast.walk(g):
+                hit = None
+                if isinstance(n, ast.Assign) and any(isinstance(t, ast.Subscript) and unparse(t.value) in holders for t in n.targets):
+                    hit = n
+                if isinstance(n, ast.Call) and isinstance(n.func, ast.Attribute) and n.func.attr in MUTATORS and unparse(n.func.value) in holders:
+                    hit = n
+                if hit is not None:
+                    out.append(("argument-returned-sometimes-copied", r_, f"{p}; `{unparse(hit)[:60]}` in {g.name}"))
+                    break
+            else:
+                continue
+            break
+    return out
+
+
 def check(idx: Index, rep: Report, prop: str) -> None:
     r = rep.rule(f"{prop}.A1", "no object of the anchored code keeps a container argument by reference where it copies it on another branch, or where the parameter is declared read-only (Iterable / Sequence / Mapping ...) and the object updates the field in place", floor=None)
     pos = ast.parse("class D:\n    def __init__(self, values: Iterable[int] = ()):\n        self._v = values if isinstance(values, list) else list(values)\n    def add(self, x):\n        self._v.append(x)\n").body[0]
@@ -111,4 +175,12 @@ def check(idx: Index, rep: Report, prop: str) -> None:
                 else:
                     msg = f"`self.{fld} = {p}` keeps the argument by reference although `{p}` is declared read-only ({detail.split(';')[0]}) and the class updates the field in place ({detail.split(';')[1].strip()}): a caller's list is written to behind its back, a tuple / generator argument fails later"
                 r.fail(inst, Finding(f"{prop}.A1", f"{mi.name}.{c.name}", f"captured-argument-{kind}:{fld}", msg, f"{rel}:{node.lineno}"))
+        for f in mi.functions.values():
+            for kind, node, detail in function_sites(f.raw_node, mi.tree):
+                inst = f"{rel}:{f.qualname}:{kind}"
+                if kind == "mutable-returned-as-immutable":
+                    msg = f"`{unparse(node)}` hands out the mutable buffer `{detail.split(';')[0]}` although the function is declared `{detail.split(';')[1].strip()}`: the result compares equal to the immutable value but cannot be hashed and can be changed in place by whoever holds it"
+                else:
+                    msg = f"`{unparse(node)}` returns the caller's `{detail.split(';')[0]}` itself while another path returns a fresh copy, and a caller updates the result in place ({detail.split(';')[1].strip()}): on the no-copy path that update is written into the argument, i.e. into an object the caller's caller still owns and may reuse"
+                r.fail(inst, Finding(f"{prop}.A1", f.fq, f"{kind}", msg, f"{rel}:{node.lineno}"))
     rep.extra.setdefault("alias_classes", n_cls)
